@@ -45,6 +45,7 @@ Var(x) == [k |-> "var", n |-> x, site |-> 0]
 Bin(op, l, r) == [k |-> "bin", op |-> op, l |-> l, r |-> r]
 Call(f, as) == [k |-> "call", f |-> f, site |-> 0, as |-> as]
 Interp(x) == [k |-> "str", segs |-> <<Lit(<<60>>), [k |-> "var", n |-> x, site |-> 0], Lit(<<62>>)>>]   \* "<{x}>"
+Interp2(x, y) == [k |-> "str", segs |-> <<[k |-> "var", n |-> x, site |-> 0], Lit(<<124>>), [k |-> "var", n |-> y, site |-> 0]>>]   \* "{x}|{y}"
 Idx(a, i) == [k |-> "idx", a |-> a, i |-> i]
 MCall(o, mm, as) == [k |-> "mcall", o |-> o, m |-> mm, as |-> as]
 ArrE(es) == [k |-> "arr", es |-> es]
@@ -95,7 +96,7 @@ Exprs(c) ==
   \cup (IF "addcall" \in P.kinds THEN {Bin("add", Var(x), e) : x \in Assignable, e \in Calls(c)} ELSE {})
   \cup (IF P.ty = "str" /\ "interp" \in P.kinds THEN {Interp(x) : x \in Assignable} ELSE {})
   \* operations that can fail at run time: division by a variable, a method on a dynamically typed parameter
-  \cup (IF "trap" \in P.kinds THEN {Bin("divide", Num(c), Var(x)) : x \in NumVars} \cup {MCall(Var(x), "len", <<>>) : x \in Visible \cap {"k"}} ELSE {})
+  \cup (IF "trap" \in P.kinds THEN {Bin(op, Num(c), Var(x)) : op \in {"divide", "mod"}, x \in NumVars} \cup {MCall(Var(x), "len", <<>>) : x \in Visible \cap {"k"}} ELSE {})
   \cup (IF "arr" \in P.kinds THEN {Idx(Var(a), Num(0)) : a \in VisArr} \cup {MCall(Var(a), "pop", <<>>) : a \in VisArr} ELSE {})
 \* conditions: comparisons of a visible number with a small constant, or a parameter test
 Conds(c) == (IF "dyncond" \in P.kinds THEN {Var(x) : x \in Visible \cap {"k"}} ELSE {}) \cup
@@ -125,6 +126,8 @@ GenSimple ==
      \/ /\ Has("set") /\ \E x \in Assignable, e \in Exprs(id) : AddStmt(Set(id, x, e))
      \/ /\ Has("shout") /\ \E e \in Exprs(id) \ {Atom(id)} : AddStmt(Shout(id, e))
      \/ /\ Has("call") /\ \E e \in Calls(id) : AddStmt(ExprS(id, e))
+     \* a literal with two placeholders (each must resolve lexically on its own)
+     \/ /\ Has("interp2") /\ \E x \in Visible, y \in Visible : AddStmt(Shout(id, Interp2(x, y)))
      \* type juggling: a variable declared at one type is re-assigned at another (accepted by the checker)
      \/ /\ Has("juggle") /\ \E x \in Assignable : AddStmt(Set(id, x, IF P.ty = "num" THEN StrC(id) ELSE Num(id)))
      \/ /\ Has("ret") /\ InFun /\ \E e \in Exprs(id) : AddStmt(Ret(id, e))
